@@ -60,12 +60,19 @@ func exprObs(expr string, d interface{}, opts ...bexpr.Option) (o string) {
 	if atomic.AddInt64(&obsCalls, 1)%97 == 0 {
 		poison()
 	}
+	// the option list is the caller's: it is handed over in a slice with spare capacity and overwritten once the evaluator exists
+	mine := make([]bexpr.Option, len(opts), len(opts)+4)
+	copy(mine, opts)
 	enter("CreateEvaluator", expr, nil)
-	ev, err := bexpr.CreateEvaluator(expr, opts...)
+	ev, err := bexpr.CreateEvaluator(expr, mine...)
 	leave()
 	if err != nil {
 		return "NOCREATE"
 	}
+	for i := range mine {
+		mine[i] = bexpr.WithTagName("scribbled-after-creation")
+	}
+	mine = append(mine, bexpr.WithUnknownValue("scribbled"), bexpr.WithTagName("scribbled-after-creation"))
 	o = evalObs(ev, d)
 	// generic guard against state carried between calls or between evaluators of one text (caches, memos, pools):
 	// the same evaluator asked again, and a second evaluator for the same text, must answer the same
